@@ -149,160 +149,6 @@ class Z3Alg(_AlgBase):
         return x == c
 
 
-class RecAlg(Z3Alg):
-    """Z3Alg that records which byte sets are tested and whether raw byte values are used (pass 1 of the
-    byte-class abstraction)."""
-
-    def __init__(self, z3, nbytes):
-        Z3Alg.__init__(self, z3, nbytes, prefix='r')
-        self.sets = set()
-        self.raw = False
-
-    def byte(self, k):
-        self.raw = True
-        return Z3Alg.byte(self, k)
-
-    def byte_in_set(self, k, st):
-        self.sets.add(st)
-        return Z3Alg.byte_in_set(self, k, st)
-
-
-def byte_classes(sets):
-    """coarsest partition of 0..255 such that every set in `sets` is a union of blocks"""
-    sets = sorted(sets, key=lambda s: (len(s), sorted(s)))
-    sig = {}
-    for b in range(256):
-        sig.setdefault(tuple(b in s for s in sets), []).append(b)
-    return sorted(sig.values(), key=lambda blk: blk[0])
-
-
-class ClassAlg(_AlgBase):
-    """Each position holds a one-hot vector over the byte classes (blocks of the partition induced by all byte
-    sets that the two encodings test).  Both encodings look at bytes only through membership in such sets, so a
-    class string stands for all byte strings whose bytes lie in the chosen classes."""
-    symbolic = True
-
-    def __init__(self, z3, nbytes, classes):
-        self.z3 = z3
-        self.classes = classes
-        self.cls_of = {}
-        for ci, blk in enumerate(classes):
-            for b in blk:
-                self.cls_of[b] = ci
-        self.s = [[z3.Bool('c%d_%d' % (k, ci)) for ci in range(len(classes))] for k in range(nbytes)]
-        self._setmemo = {}
-        self.nodes = 0
-
-    def side_constraints(self):
-        z3 = self.z3
-        cs = []
-        for row in self.s:
-            cs.append(z3.Or(*row))
-            for a in range(len(row)):
-                for b in range(a + 1, len(row)):
-                    cs.append(z3.Or(z3.Not(row[a]), z3.Not(row[b])))
-        return cs
-
-    _and = Z3Alg._and
-    _or = Z3Alg._or
-    _not = Z3Alg._not
-
-    def byte(self, k):
-        raise EncodeError('raw byte access under the byte-class abstraction')
-
-    def byte_in_set(self, k, st):
-        key = (k, st)
-        if key in self._setmemo:
-            return self._setmemo[key]
-        inside = set()
-        for b in st:
-            inside.add(self.cls_of[b])
-        for ci in inside:
-            if not all(b in st for b in self.classes[ci]):
-                raise EncodeError('byte set is not a union of byte classes')
-        if len(inside) == len(self.classes):
-            r = True
-        else:
-            r = self.or_([self.s[k][ci] for ci in sorted(inside)])
-        self._setmemo[key] = r
-        return r
-
-    def model_bytes(self, m, pick):
-        out = []
-        for k, row in enumerate(self.s):
-            ci = [c for c, v in enumerate(row) if self.z3.is_true(m.eval(v, model_completion=True))]
-            if len(ci) != 1:
-                raise EncodeError('model is not one-hot at position %d' % k)
-            out.append(pick(self.classes[ci[0]], k))
-        return out
-
-    def block(self, m):
-        """clause excluding the class string of model m"""
-        z3 = self.z3
-        lits = []
-        for row in self.s:
-            for v in row:
-                if z3.is_true(m.eval(v, model_completion=True)):
-                    lits.append(z3.Not(v))
-        return z3.Or(*lits) if lits else z3.BoolVal(False)
-
-
-class ClassBvAlg(Z3Alg):
-    """Like ClassAlg, but a position holds the class INDEX as a small bit-vector (classes are ordered by their
-    smallest byte, so byte ranges mostly stay index ranges)."""
-
-    def __init__(self, z3, nbytes, classes):
-        self.z3 = z3
-        self.classes = classes
-        self.cls_of = {}
-        for ci, blk in enumerate(classes):
-            for b in blk:
-                self.cls_of[b] = ci
-        self.bits = max(1, (len(classes) - 1).bit_length())
-        self.s = [z3.BitVec('k%d' % k, self.bits) for k in range(nbytes)]
-        self._setmemo = {}
-        self.nodes = 0
-
-    def side_constraints(self):
-        if len(self.classes) == (1 << self.bits):
-            return []
-        return [self.z3.ULE(v, len(self.classes) - 1) for v in self.s]
-
-    def byte(self, k):
-        raise EncodeError('raw byte access under the byte-class abstraction')
-
-    def byte_in_set(self, k, st):
-        key = (k, st)
-        if key in self._setmemo:
-            return self._setmemo[key]
-        inside = set(self.cls_of[b] for b in st)
-        for ci in inside:
-            if not all(b in st for b in self.classes[ci]):
-                raise EncodeError('byte set is not a union of byte classes')
-        z3 = self.z3
-        v = self.s[k]
-        top = len(self.classes) - 1
-        if len(inside) == len(self.classes):
-            r = True
-        else:
-            alts = []
-            for lo, hi in _ranges_of(inside):
-                if lo == hi:
-                    alts.append(v == lo)
-                elif lo == 0:
-                    alts.append(z3.ULE(v, hi))
-                elif hi == top:
-                    alts.append(z3.UGE(v, lo))
-                else:
-                    alts.append(z3.And(z3.UGE(v, lo), z3.ULE(v, hi)))
-            r = self.or_(alts)
-        self._setmemo[key] = r
-        return r
-
-    def model_bytes(self, m, pick):
-        return [pick(self.classes[m.eval(v, model_completion=True).as_long()], k) for k, v in enumerate(self.s)]
-
-
 class ConcAlg(_AlgBase):
     symbolic = False
 
